@@ -598,7 +598,13 @@ type Frame struct {
 	blockPC       map[*ssa.BasicBlock]string
 	blockSt       map[*ssa.BasicBlock]*State
 	edgePC        map[[2]int]string
-	alias         map[string]string    // current local name -> name it had when the lock was written (renamed since)
+	alias         map[string]string                 // current local name -> name it had when the lock was written (renamed since)
+	extracted     bool                              // frame of a function that did not exist when the lock was written (code moved out of the function under verification): treated as part of its caller's text
+	paramOrigin   map[*ssa.Parameter]*ssa.Parameter // extracted frame: parameter -> the caller's parameter passed for it
+	inlineAt      ssa.Instruction                   // set around the inlining of an extracted function: the call instruction
+	callSite      ssa.Instruction                   // the call instruction in the parent frame this frame was inlined at
+	loopBase      int                               // loop ordinals of this frame start after loopBase
+	siteBase      map[ssa.Instruction]int
 	inlinedHelper bool                 // frame of a repository helper executed symbolically inside the function under verification
 	applyMC       *ssa.MakeClosure     // closure value whose contract is being applied at the current call site
 	iterVis       map[ssa.Value]string // range-over-map iterator -> state key of visited set
@@ -833,6 +839,93 @@ func findLoops(fn *ssa.Function) ([]*loopInfo, error) {
 	return loops, nil
 }
 
+// loopCount: loops of fn plus those of the extracted functions it calls (they count as loops of the caller's text).
+func (g *Gen) loopCount(fn *ssa.Function, depth int) int {
+	loops, err := findLoops(fn)
+	if err != nil || depth > 6 {
+		return 0
+	}
+	n := len(loops)
+	for _, b := range fn.Blocks {
+		for _, ins := range b.Instrs {
+			if ci, ok := ins.(ssa.CallInstruction); ok {
+				if callee := ci.Common().StaticCallee(); callee != nil && callee != fn && g.extractedFn(callee) {
+					n += g.loopCount(callee, depth+1)
+				}
+			}
+		}
+	}
+	return n
+}
+
+func loopMinPos(l *loopInfo) token.Pos {
+	var m token.Pos
+	for b := range l.blocks {
+		for _, ins := range b.Instrs {
+			switch ins.(type) {
+			case *ssa.DebugRef, *ssa.Phi:
+				continue // a phi carries the position of the variable's declaration, not of the loop
+			}
+			if p := ins.Pos(); p.IsValid() && (!m.IsValid() || p < m) {
+				m = p
+			}
+		}
+	}
+	return m
+}
+
+// numberLoops gives the loops of this frame their ordinals. A loop that was moved, as it is, into a new function keeps the
+// ordinal it had in the function under verification: the loops of an extracted function are numbered at its call site, in
+// source order among the caller's own loops. Without extracted functions the ordinals are 1..n in header order.
+func (fr *Frame) numberLoops(loops []*loopInfo) {
+	type site struct {
+		ins ssa.Instruction
+		pos token.Pos
+		n   int
+	}
+	var sites []site
+	if fr.top || fr.extracted {
+		for _, b := range fr.fn.Blocks {
+			for _, ins := range b.Instrs {
+				if ci, ok := ins.(ssa.CallInstruction); ok {
+					if callee := ci.Common().StaticCallee(); callee != nil && callee != fr.fn && fr.vc.g.extractedFn(callee) {
+						if n := fr.vc.g.loopCount(callee, 1); n > 0 {
+							sites = append(sites, site{ins, ins.Pos(), n})
+						}
+					}
+				}
+			}
+		}
+	}
+	minPos := make([]token.Pos, len(loops))
+	for i, l := range loops {
+		minPos[i] = loopMinPos(l)
+	}
+	for i, l := range loops {
+		l.ordinal = fr.loopBase + i + 1
+		for _, s := range sites {
+			if s.pos < minPos[i] {
+				l.ordinal += s.n
+			}
+		}
+	}
+	fr.siteBase = map[ssa.Instruction]int{}
+	for _, s := range sites {
+		base := fr.loopBase
+		for i := range loops {
+			if minPos[i] <= s.pos {
+				base++
+			}
+		}
+		for _, o := range sites {
+			if o.pos < s.pos {
+				base += o.n
+			}
+		}
+		fr.siteBase[s.ins] = base
+	}
+}
+
 func topoOrder(fn *ssa.Function) []*ssa.BasicBlock {
 	var order []*ssa.BasicBlock
 	seen := map[*ssa.BasicBlock]bool{}
@@ -913,10 +1006,15 @@ func (fr *Frame) run(pc string, st *State) (string, *State, [][]string) {
 		return "false", st, nil
 	}
 	fr.loops = loops
+	fr.numberLoops(loops)
 	for _, l := range loops {
 		fr.loopOf[l.header] = l
 		if fr.c != nil && fr.top {
 			l.spec = fr.c.Loops[l.ordinal]
+		} else if fr.extracted {
+			if top := fr.topFrame(); top.c != nil && top.top {
+				l.spec = top.c.Loops[l.ordinal]
+			}
 		}
 	}
 	fr.entry = st.clone()
@@ -1278,7 +1376,7 @@ func (fr *Frame) enterLoop(li *loopInfo, pc string, st *State) (string, *State) 
 		pc = and(pc, vc.typeAssume(n, phi.Type(), st))
 	}
 	// implicit frame invariant: the function's modifies clause holds at every loop head
-	if fr.top && vc.frameOn {
+	if (fr.top || fr.extracted) && vc.frameOn {
 		for _, h := range li.havocked {
 			if g := vc.frameGoal(h, vc.stGet0(preSt, h)); g != "" {
 				vc.addObl(&Obligation{Name: fmt.Sprintf("loop%d:init:frame:%s", li.ordinal, h), Kind: "loop-init", PC: pc, Goal: g, Src: "implicit frame invariant for " + h})
@@ -1309,7 +1407,7 @@ func (fr *Frame) enterLoop(li *loopInfo, pc string, st *State) (string, *State) 
 			}
 			li.decr0 = vc.define("decr", "Int", t.t)
 		}
-	} else if fr.top {
+	} else if fr.top || fr.extracted {
 		vc.note("loop %d of %s has no invariant (havoc only)", li.ordinal, fr.fn.String())
 	}
 	pc = vc.define(fmt.Sprintf("%slooppc%d", fr.prefix, li.ordinal), "Bool", pc)
@@ -1320,7 +1418,7 @@ func (fr *Frame) enterLoop(li *loopInfo, pc string, st *State) (string, *State) 
 func (fr *Frame) backEdge(li *loopInfo, from *ssa.BasicBlock, cond string, st *State) {
 	vc := fr.vc
 	spec := li.spec
-	if fr.top && vc.frameOn {
+	if (fr.top || fr.extracted) && vc.frameOn {
 		for _, h := range li.havocked {
 			if g := vc.frameGoal(h, vc.stGet0(st, h)); g != "" {
 				vc.addObl(&Obligation{Name: fmt.Sprintf("loop%d:preserve:frame:%s@b%d", li.ordinal, h, fr.backOrdinal(li, from)), Kind: "loop-preserve", PC: cond, Goal: g, Src: "implicit frame invariant for " + h})
@@ -1506,19 +1604,52 @@ func (fr *Frame) privKey(a *ssa.Alloc) string {
 }
 
 func (fr *Frame) loopGhostWrites(li *loopInfo) []string {
-	if fr.c == nil || !fr.top {
+	top := fr
+	if !fr.top {
+		if !fr.extracted && !fr.inlinedHelper {
+			return nil
+		}
+		top = fr.topFrame()
+	}
+	if top.c == nil || !top.top || len(top.c.Sites) == 0 {
 		return nil
 	}
 	set := map[string]bool{}
-	for b := range li.blocks {
-		for _, ins := range b.Instrs {
-			for _, sa := range fr.sitesFor(ins) {
-				for _, a := range sa.Acts {
-					if a.Kind == "set" {
-						set["$g."+a.Var] = true
+	seen := map[*ssa.Function]bool{}
+	var scan func(mf *Frame, ins ssa.Instruction, allKinds bool, depth int)
+	scan = func(mf *Frame, ins ssa.Instruction, allKinds bool, depth int) {
+		for _, sa := range top.c.Sites {
+			if !allKinds && sa.When != "call" && sa.When != "aftercall" && sa.When != "go" && sa.When != "defer" {
+				continue
+			}
+			if !mf.siteMatches(sa, ins) {
+				continue
+			}
+			for _, a := range sa.Acts {
+				if a.Kind == "set" {
+					set["$g."+a.Var] = true
+				}
+			}
+		}
+		// helpers executed symbolically inside the loop trigger the function's site clauses too
+		if ci, ok := ins.(ssa.CallInstruction); ok && depth < 6 {
+			if callee := ci.Common().StaticCallee(); callee != nil && !seen[callee] && len(callee.Blocks) > 0 && fr.vc.g.contractFor(callee) == nil {
+				ext := fr.vc.g.extractedFn(callee)
+				if ext || fr.vc.g.smallHelper(callee) {
+					seen[callee] = true
+					sub := &Frame{vc: fr.vc, fn: callee, privAlloc: map[*ssa.Alloc]bool{}, closures: map[ssa.Value]*ssa.MakeClosure{}, freeClos: map[*ssa.FreeVar]*ssa.MakeClosure{}}
+					for _, b := range callee.Blocks {
+						for _, x := range b.Instrs {
+							scan(sub, x, allKinds && ext, depth+1)
+						}
 					}
 				}
 			}
+		}
+	}
+	for b := range li.blocks {
+		for _, ins := range b.Instrs {
+			scan(fr, ins, fr.top || fr.extracted, 0)
 		}
 	}
 	var out []string
@@ -1578,6 +1709,33 @@ func offZero(v ssa.Value, seen map[ssa.Value]bool) bool {
 // in this function. Arrays of such T allocated by this invocation are unreachable for anybody else.
 func (fr *Frame) privateSliceHeaps() map[string]bool {
 	vc := fr.vc
+	// the text of the function: its own instructions and those of the extracted functions it calls (code that was
+	// moved out of it since the contracts were locked); calls to those are not hand-overs to foreign code
+	type textIns struct {
+		ins     ssa.Instruction
+		foreign bool
+	}
+	var text []textIns
+	seenFn := map[*ssa.Function]bool{fr.fn: true}
+	var collect func(fn *ssa.Function, foreign bool, depth int)
+	collect = func(fn *ssa.Function, foreign bool, depth int) {
+		for _, b := range fn.Blocks {
+			for _, ins := range b.Instrs {
+				text = append(text, textIns{ins, foreign})
+				if ci, ok := ins.(ssa.CallInstruction); ok && depth < 6 {
+					if callee := ci.Common().StaticCallee(); callee != nil && !seenFn[callee] && vc.g.extractedFn(callee) {
+						seenFn[callee] = true
+						collect(callee, true, depth+1)
+					}
+				}
+			}
+		}
+	}
+	collect(fr.fn, false, 0)
+	isExtractedCall := func(c *ssa.CallCommon) bool {
+		callee := c.StaticCallee()
+		return callee != nil && callee != fr.fn && seenFn[callee]
+	}
 	cands := map[string]types.Type{}
 	elemOf := func(t types.Type) types.Type {
 		switch u := t.Underlying().(type) {
@@ -1590,8 +1748,10 @@ func (fr *Frame) privateSliceHeaps() map[string]bool {
 		}
 		return nil
 	}
-	for _, b := range fr.fn.Blocks {
-		for _, ins := range b.Instrs {
+	for _, ti := range text {
+		{
+			ins, foreign := ti.ins, ti.foreign
+			_ = foreign
 			switch x := ins.(type) {
 			case *ssa.MakeSlice:
 				if e := elemOf(x.Type()); e != nil {
@@ -1615,11 +1775,16 @@ func (fr *Frame) privateSliceHeaps() map[string]bool {
 			escapes[vc.d.sliceHeap(e)] = true
 		}
 	}
-	for _, b := range fr.fn.Blocks {
-		for _, ins := range b.Instrs {
+	for _, ti := range text {
+		{
+			ins, foreign := ti.ins, ti.foreign
+			_ = foreign
 			switch x := ins.(type) {
 			case ssa.CallInstruction:
 				c := x.Common()
+				if isExtractedCall(c) {
+					continue
+				}
 				if bi, ok := c.Value.(*ssa.Builtin); ok {
 					switch bi.Name() {
 					case "len", "cap", "append", "copy":
@@ -1633,7 +1798,11 @@ func (fr *Frame) privateSliceHeaps() map[string]bool {
 					mark(c.Value)
 				}
 			case *ssa.Store:
-				if _, priv := fr.locsPrivate(x.Addr); !priv {
+				if foreign {
+					if _, local := x.Addr.(*ssa.Alloc); !local {
+						mark(x.Val)
+					}
+				} else if _, priv := fr.locsPrivate(x.Addr); !priv {
 					mark(x.Val)
 				}
 			case *ssa.MapUpdate:
@@ -1674,8 +1843,10 @@ func (fr *Frame) privateSliceHeaps() map[string]bool {
 			mapEsc[types.TypeString(mt, nil)] = true
 		}
 	}
-	for _, b := range fr.fn.Blocks {
-		for _, ins := range b.Instrs {
+	for _, ti := range text {
+		{
+			ins, foreign := ti.ins, ti.foreign
+			_ = foreign
 			if v, ok := ins.(ssa.Value); ok {
 				if mt, ok := v.Type().Underlying().(*types.Map); ok {
 					mapTypes[types.TypeString(mt, nil)] = mt
@@ -1684,6 +1855,9 @@ func (fr *Frame) privateSliceHeaps() map[string]bool {
 			switch x := ins.(type) {
 			case ssa.CallInstruction:
 				c := x.Common()
+				if isExtractedCall(c) {
+					continue
+				}
 				if bi, ok := c.Value.(*ssa.Builtin); ok {
 					switch bi.Name() {
 					case "len", "delete":
@@ -1697,7 +1871,11 @@ func (fr *Frame) privateSliceHeaps() map[string]bool {
 					markMap(c.Value)
 				}
 			case *ssa.Store:
-				if _, priv := fr.locsPrivate(x.Addr); !priv {
+				if foreign {
+					if _, local := x.Addr.(*ssa.Alloc); !local {
+						markMap(x.Val)
+					}
+				} else if _, priv := fr.locsPrivate(x.Addr); !priv {
 					markMap(x.Val)
 				}
 			case *ssa.MapUpdate:
